@@ -12,6 +12,7 @@ import (
 	"errors"
 	"fmt"
 	"io"
+	"regexp"
 	"sort"
 	"strconv"
 	"strings"
@@ -390,4 +391,12 @@ func TestSymBase64(n int) {
 	enc := base64.StdEncoding.EncodeToString([]byte(s))
 	dec, err := base64.StdEncoding.DecodeString(enc)
 	verifrt.Assert(err == nil && string(dec) == s, "base64 round trip, symbolic")
+}
+
+func TestRegexpReal() {
+	re := regexp.MustCompile("^ERR(OR)?$")
+	verifrt.Assert(re.MatchString("ERROR"), "match")
+	verifrt.Assert(!re.MatchString("an ERROR occurred"), "anchored")
+	re2 := regexp.MustCompile("a.c|x+")
+	verifrt.Assert(re2.Match([]byte("zzabczz")) && re2.MatchString("xx") && !re2.MatchString("ac"), "alternation")
 }
